@@ -66,7 +66,9 @@ LastBlock == 3 * PhaseLen + 1   \* the block that can carry the DKGResult votes
 (*   k "commit": vals[s] \in {"good","baddeg"}                             *)
 (*   k "eval"  : vals[r] \in {"ok","bad"} for each receiver r              *)
 (*   k "acc"   : vals[d] = "x" for each accused d                          *)
-(*   k "apol"  : vals[a] \in {"ok","bad"} for each accuser a               *)
+(*   k "apol"  : vals[a] \in {"ok","bad","oor"} for each accuser a ("oor": not *)
+(*               a valid evaluation, >= the group order: puredkg refuses   *)
+(*               that ENTRY, smstate goes on with the next one)            *)
 (*   k "result": vals[s] \in {"ok","fail"}                                 *)
 (*   k "checkin": vals[s] = "key" (the keyper's own encryption key)        *)
 (*   k "old"   : a message of the previous, failed eon (its DKGResult vote) *)
@@ -216,7 +218,7 @@ HandleAcc(p, i, m) ==
 (* smstate.handleApology: only in the apologizing phase; an accusation is not required *)
 HandleApol(p, i, m) ==
     IF p.phase = Apologizing
-    THEN [p EXCEPT !.apol = [a \in K |-> IF a \in Named(m) /\ @[a][m.s] = "none"
+    THEN [p EXCEPT !.apol = [a \in K |-> IF a \in Named(m) /\ m.vals[a] # "oor" /\ @[a][m.s] = "none"
                                          THEN [@[a] EXCEPT ![m.s] = m.vals[a]] ELSE @[a]]]
     ELSE p
 
@@ -235,12 +237,15 @@ HandleEvents(p, i, evs) == IF evs = <<>> THEN p ELSE HandleEvents(HandleEvent(p,
    experiments; the repository does "before"). *)
 ProcessBlockOv(p, i, h, evs, ov) ==
     IF p.phase < Off \/ p.done THEN p   \* Byzantine slot / no active DKG: events for a non-existent eon are ignored
-    ELSE LET p1 == ShiftPhase(p, i, h)
-             (* overlapping eons: the previous eon of the keyper set is still in its apologising phase
-                when this one starts and is finalised (as failed) by shiftPhases of block 1 *)
-             p2 == IF ov /\ h = 1 THEN Push(p1, Msg("old", i, BlankVals)) ELSE p1
+    ELSE LET (* overlapping eons: the previous eon of the keyper set is still active when this one starts
+                and is finalised (as failed) by shiftPhases of block ov (1: an ordinary block; PhaseLen:
+                the same shiftPhases call moves this eon from dealing to accusing).  shiftPhases ranges
+                over a Go map: when both eons queue a message in that call their order is open; the
+                model takes "previous eon first", DKGTrace accepts both *)
+             p1 == IF ov > 0 /\ h = ov THEN Push(p, Msg("old", i, BlankVals)) ELSE p
+             p2 == ShiftPhase(p1, i, h)
          IN HandleEvents(p2, i, evs)
-ProcessBlock(p, i, h, evs) == ProcessBlockOv(p, i, h, evs, FALSE)
+ProcessBlock(p, i, h, evs) == ProcessBlockOv(p, i, h, evs, 0)
 
 (* one SyncAppWithDB call (fetchEvents2): every closed block above the keyper's sync position *)
 RECURSIVE ProcessBlocks(_, _, _, _, _)
@@ -256,7 +261,10 @@ InitState ==
      stage |-> 0,
      rej   |-> 0,
      rl    |-> [i \in K |-> 0],    \* ghost: block in which keyper i re-created its in-memory state (0 = never)
-     ov    |-> FALSE,               \* world variant: the previous eon overlaps with this one (see ProcessBlockOv)
+     ov    |-> 0,                   \* world variant: >0: the previous eon overlaps, finalised in block ov (see ProcessBlockOv)
+     tags  |-> [rv |-> FALSE, oor |-> FALSE, at |-> 0, bnd |-> FALSE],   \* ghost: a message with reversed entry order / with an
+                                    \* out-of-range value has been sent (both leave no trace in the model); at = block of the last such message;
+                                    \* bnd = a Byzantine message was sent in the block in which the previous eon is finalised
      lags  |-> 0,                   \* number of "lag" ops so far
      skip  |-> [i \in K |-> FALSE], \* keyper i does not call SyncAppWithDB after the open block
      sync  |-> [i \in K |-> IF i \in Honest THEN 0 ELSE -1],   \* last block keyper i has applied
@@ -273,7 +281,10 @@ InitState ==
    call catches up on several blocks (one transaction each, with the heights of the blocks);
    "end": the block is closed and every honest keyper that does not lag applies every closed
    block it has not applied yet. *)
-Op(o, s, vals) == [op |-> o, s |-> s, vals |-> vals]
+(* rev: the entries of the message are written in descending keyper order (the handlers loop over
+   the entries in message order; the order has no effect in the model) *)
+OpR(o, s, vals, rev) == [op |-> o, s |-> s, vals |-> vals, rev |-> rev]
+Op(o, s, vals) == OpR(o, s, vals, FALSE)
 KindOf(o) == CASE o.op = "bcommit" -> "commit" [] o.op = "beval" -> "eval"
                [] o.op = "bacc" -> "acc" [] o.op = "bapol" -> "apol" [] OTHER -> Blank
 
@@ -318,18 +329,29 @@ InWindow(s, o) ==
       [] o.op = "end"  -> \A i \in Honest : IF Len(s.kp[i].outbox) = 0 THEN TRUE ELSE s.h < WindowEnd(Head(s.kp[i].outbox).k)
       [] OTHER -> TRUE
 
+(* timely: every honest message is posted inside its phase (no honest message is late) *)
+InTime(s, o) ==
+    CASE o.op = "post" -> IF o.s \notin Honest THEN FALSE
+                          ELSE IF Len(s.kp[o.s].outbox) = 0 THEN TRUE ELSE s.h < WindowEnd(Head(s.kp[o.s].outbox).k)
+      [] o.op = "end"  -> \A i \in Honest : IF Len(s.kp[i].outbox) = 0 THEN TRUE ELSE s.h + 1 < WindowEnd(Head(s.kp[i].outbox).k)
+      [] OTHER -> TRUE
+
 Reloads(s) == Cardinality({i \in K : s.rl[i] # 0})
 
-OpEnabledLag(s, o, maxRej, windows, maxReload, maxLag) ==
+OpEnabledX(s, o, maxRej, windows, maxReload, maxLag, timely, reloadMax) ==
     /\ ~Final(s)
+    /\ timely => InTime(s, o)
     /\ o.op = "lag" => (o.s \in Honest /\ ~s.skip[o.s] /\ s.lags < maxLag /\ s.h < 3 * PhaseLen)
     /\ o.op = "reload" => (o.s \in Honest /\ ~s.kp[o.s].done /\ s.rl[o.s] = 0 /\ Reloads(s) < maxReload
-                            /\ (windows => s.h <= 2 * PhaseLen))   \* exhaustive plans: dealing and accusing phases
+                            /\ (windows => s.h <= reloadMax))
     /\ IF o.op = "post" THEN o.s \in Honest /\ s.kp[o.s].outbox # <<>> /\ Rank(o) >= s.stage
        ELSE Rank(o) > s.stage
     /\ o.op \in {"bcommit", "beval", "bacc", "bapol"} => o.s \in Byz
     /\ windows => InWindow(s, o)
     /\ WouldReject(s, o) => s.rej < maxRej
+
+OpEnabledLag(s, o, maxRej, windows, maxReload, maxLag) ==
+    OpEnabledX(s, o, maxRej, windows, maxReload, maxLag, FALSE, 2 * PhaseLen)
 
 (* without "lag" ops (the signature other modules use) *)
 OpEnabled(s, o, maxRej, windows, maxReload) == OpEnabledLag(s, o, maxRej, windows, maxReload, 0)
@@ -367,7 +389,10 @@ ApplyOp(s, o) ==
            THEN (* SendShutterMessages: Ok and Seen delete the row; Error keeps it at the head *)
                 [st  |-> IF d.code = CodeError THEN s1 ELSE [s1 EXCEPT !.kp[o.s].outbox = Tail(@)],
                  out |-> [code |-> d.code, msg |-> m, ev |-> ev]]
-           ELSE [st  |-> [s1 EXCEPT !.rej = IF d.code # CodeOk THEN @ + 1 ELSE @],
+           ELSE [st  |-> [s1 EXCEPT !.rej = IF d.code # CodeOk THEN @ + 1 ELSE @,
+                                    !.tags = [rv |-> @.rv \/ o.rev, oor |-> @.oor \/ \E i \in K : o.vals[i] = "oor",
+                                              at |-> IF o.rev \/ \E i \in K : o.vals[i] = "oor" THEN s.h ELSE @.at,
+                                              bnd |-> @.bnd \/ (s.ov > 0 /\ s.h = s.ov)]],
                  out |-> [code |-> d.code, msg |-> m, ev |-> ev]]
 
 =============================================================================
